@@ -82,6 +82,11 @@ pub enum RTy {
     U64,
     /// tuple of values
     Tuple(Vec<RTy>),
+    /// value of an OPAQUE TABLE type (`Magics`, `Nonmagics`; `targets::TABLE_TYPES`): represented by its lookup function
+    Table(String),
+    /// value of a flattened struct stored in a collection (`Vec<Move>` in a bit-manipulating function): the tuple of its
+    /// fields in declaration order (struct name, field types)
+    Packed(String, Vec<RTy>),
 }
 
 impl RTy {
@@ -107,11 +112,13 @@ impl RTy {
             RTy::Infer => "_".into(),
             RTy::U64 => "UInt64".into(),
             RTy::Tuple(ts) => if ts.is_empty() { "Unit".into() } else { format!("({})", ts.iter().map(|t| t.lean_atom()).collect::<Vec<_>>().join(" × ")) },
+            RTy::Table(n) => crate::targets::table_lean_type(n),
+            RTy::Packed(_, ts) => if ts.len() == 1 { ts[0].lean() } else { format!("({})", ts.iter().map(|t| t.lean_atom()).collect::<Vec<_>>().join(" × ")) },
         }
     }
     pub fn lean_atom(&self) -> String {
         match self {
-            RTy::Opt(_) | RTy::VecFn(_) | RTy::VecList(_) | RTy::Str | RTy::Res(_, _) | RTy::Iter(_) | RTy::HashMap(_, _) | RTy::VecDeque(_) => format!("({})", self.lean()),
+            RTy::Opt(_) | RTy::VecFn(_) | RTy::VecList(_) | RTy::Str | RTy::Res(_, _) | RTy::Iter(_) | RTy::HashMap(_, _) | RTy::VecDeque(_) | RTy::Table(_) => format!("({})", self.lean()),
             _ => self.lean(),
         }
     }
@@ -134,6 +141,7 @@ impl RTy {
             RTy::Infer => "_".into(),
             RTy::U64 => "u64".into(),
             RTy::Tuple(ts) => format!("({})", ts.iter().map(|t| t.rust()).collect::<Vec<_>>().join(", ")),
+            RTy::Table(n) | RTy::Packed(n, _) => n.clone(),
         }
     }
     /// equal up to `Infer`
